@@ -233,31 +233,7 @@ impl Node {
     status_capacity: usize,
   ) -> usize {
     let guid = GUID::new(self.prefix, eid);
-    let topic_cache = Arc::new(Mutex::new(TopicCache::new(
-      topic.to_string(),
-      TypeDesc::new("RigType".to_string()),
-      &roomy(qos),
-    )));
-    let (notification_tx, notification_rx) = mio_channel::sync_channel::<()>(4);
-    let (status_tx, status_rx) =
-      sync_status_channel::<DataReaderStatus>(status_capacity).expect("rig: status channel");
-    let (reader_command_tx, reader_command_rx) = mio_channel::sync_channel::<ReaderCommand>(0);
-    let waker = Arc::new(Mutex::new(None));
-    let (poll_event_source, poll_event_sender) =
-      mio_source::make_poll_channel().expect("rig: poll channel");
-    let ing = ReaderIngredients {
-      guid,
-      notification_sender: notification_tx,
-      status_sender: status_tx,
-      topic_name: topic.to_string(),
-      topic_cache_handle: topic_cache.clone(),
-      like_stateless,
-      qos_policy: qos.clone(),
-      data_reader_command_receiver: reader_command_rx,
-      data_reader_waker: waker.clone(),
-      poll_event_sender,
-      security_plugins: None,
-    };
+    let (ing, rr) = reader_ingredients(guid, topic, qos, like_stateless, status_capacity);
     let reader = Reader::new(
       ing,
       udp_sender(),
@@ -265,19 +241,7 @@ impl Node {
       self.participant_status_tx.clone(),
     );
     self.mr.add_reader(reader);
-    self.readers.push(RigReader {
-      guid,
-      topic_name: topic.to_string(),
-      qos: qos.clone(),
-      topic_cache,
-      ends: Some(ReaderEnds {
-        notification_rx,
-        status_rx,
-        reader_command_tx,
-        waker,
-        poll_event_source,
-      }),
-    });
+    self.readers.push(rr);
     self.readers.len() - 1
   }
 
@@ -294,20 +258,7 @@ impl Node {
     status_capacity: usize,
   ) -> usize {
     let guid = GUID::new(self.prefix, eid);
-    let (cmd_tx, cmd_rx) = mio_channel::sync_channel::<WriterCommand>(cmd_capacity);
-    let (status_tx, status_rx) =
-      sync_status_channel::<DataWriterStatus>(status_capacity).expect("rig: status channel");
-    let waker = Arc::new(Mutex::new(None));
-    let ing = WriterIngredients {
-      guid,
-      writer_command_receiver: cmd_rx,
-      writer_command_receiver_waker: waker.clone(),
-      topic_name: topic.to_string(),
-      like_stateless: false,
-      qos_policies: qos.clone(),
-      status_sender: status_tx,
-      security_plugins: None,
-    };
+    let (ing, ends) = writer_ingredients(guid, topic, qos, cmd_capacity, status_capacity);
     let mut writer = Writer::new(
       ing,
       udp_sender(),
@@ -321,9 +272,9 @@ impl Node {
     self.writers.push(RigWriter {
       guid,
       writer,
-      cmd_tx,
-      status_rx,
-      waker,
+      cmd_tx: ends.cmd_tx,
+      status_rx: ends.status_rx,
+      waker: ends.waker,
       qos: qos.clone(),
     });
     self.writers.len() - 1
@@ -364,6 +315,95 @@ impl Node {
     self.writers[wi].writer.handle_timed_event();
     hooks::capture_len() - before
   }
+}
+
+/// What pubsub.rs prepares for a new reader: ingredients for the RTPS Reader and
+/// the application-side ends.
+pub fn reader_ingredients(
+  guid: GUID,
+  topic: &str,
+  qos: &QosPolicies,
+  like_stateless: bool,
+  status_capacity: usize,
+) -> (ReaderIngredients, RigReader) {
+  let topic_cache = Arc::new(Mutex::new(TopicCache::new(
+    topic.to_string(),
+    TypeDesc::new("RigType".to_string()),
+    &roomy(qos),
+  )));
+  let (notification_tx, notification_rx) = mio_channel::sync_channel::<()>(4);
+  let (status_tx, status_rx) =
+    sync_status_channel::<DataReaderStatus>(status_capacity).expect("rig: status channel");
+  let (reader_command_tx, reader_command_rx) = mio_channel::sync_channel::<ReaderCommand>(0);
+  let waker = Arc::new(Mutex::new(None));
+  let (poll_event_source, poll_event_sender) =
+    mio_source::make_poll_channel().expect("rig: poll channel");
+  let ing = ReaderIngredients {
+    guid,
+    notification_sender: notification_tx,
+    status_sender: status_tx,
+    topic_name: topic.to_string(),
+    topic_cache_handle: topic_cache.clone(),
+    like_stateless,
+    qos_policy: qos.clone(),
+    data_reader_command_receiver: reader_command_rx,
+    data_reader_waker: waker.clone(),
+    poll_event_sender,
+    security_plugins: None,
+  };
+  (
+    ing,
+    RigReader {
+      guid,
+      topic_name: topic.to_string(),
+      qos: qos.clone(),
+      topic_cache,
+      ends: Some(ReaderEnds {
+        notification_rx,
+        status_rx,
+        reader_command_tx,
+        waker,
+        poll_event_source,
+      }),
+    },
+  )
+}
+
+pub struct WriterEnds {
+  pub cmd_tx: mio_channel::SyncSender<WriterCommand>,
+  pub status_rx: StatusChannelReceiver<DataWriterStatus>,
+  pub waker: Arc<Mutex<Option<Waker>>>,
+}
+
+pub fn writer_ingredients(
+  guid: GUID,
+  topic: &str,
+  qos: &QosPolicies,
+  cmd_capacity: usize,
+  status_capacity: usize,
+) -> (WriterIngredients, WriterEnds) {
+  let (cmd_tx, cmd_rx) = mio_channel::sync_channel::<WriterCommand>(cmd_capacity);
+  let (status_tx, status_rx) =
+    sync_status_channel::<DataWriterStatus>(status_capacity).expect("rig: status channel");
+  let waker = Arc::new(Mutex::new(None));
+  let ing = WriterIngredients {
+    guid,
+    writer_command_receiver: cmd_rx,
+    writer_command_receiver_waker: waker.clone(),
+    topic_name: topic.to_string(),
+    like_stateless: false,
+    qos_policies: qos.clone(),
+    status_sender: status_tx,
+    security_plugins: None,
+  };
+  (
+    ing,
+    WriterEnds {
+      cmd_tx,
+      status_rx,
+      waker,
+    },
+  )
 }
 
 /// Match a remote writer (living on node `wnode`) with reader `ri` of node `rnode`
